@@ -329,3 +329,29 @@ def run(F, rep):
             want = 'nan' in (ca, cb) or ((ca == 'inf') != (cb == 'inf'))
             rep.check(got == want, 'C10.U2', 'ulpsDistance|%s,%s' % (ca, cb), ud.where(), 'for operands (%s, %s) the early return of the maximal distance is %s, expected %s' % (ca, cb, 'taken' if got else 'not taken', 'taken' if want else 'not taken'),
                       'maximal distance' if want else 'bit comparison')
+
+    # ------------------------------------------------------------------ U3: the absolute shortcut of areNearlyEqual
+    rep.rule('C10.U3', 'the shortcut of areNearlyEqual accepts two values whose ABSOLUTE difference is at most machine epsilon: the quantity compared with the epsilon is |a - b| itself, not scaled by the magnitude of the operands '
+                       '(a relative test lets 1024 and the double two steps below it through, ahead of the one-ulp rule)')
+    ne = F.fn1('libcellml::areNearlyEqual')
+    eps = [v for v in ne.walk() if v.get('k') == 'Var' and v.get('c') and 'epsilon' in render(v['c'][0])]
+    cmps = [b for b in ne.walk() if b.get('k') == 'Bin' and b.get('op') in ('<=', '<', '>=', '>') and eps and any(x.get('k') == 'Ref' and x.get('d') == eps[0]['d'] for x in walk(b))]
+    if not eps or not cmps:
+        raise AnalysisBroken('areNearlyEqual: comparison with the machine epsilon vanished')
+    from engines import single_def as _sd10
+    for b in cmps:
+        other = [x for x in b['c'] if not any(y.get('k') == 'Ref' and y.get('d') == eps[0]['d'] for y in walk(x))]
+        expr = [other[0]] if other else []
+        seen_ = set()
+        while expr:                      # spell out locals that hold the difference
+            e_ = expr.pop()
+            for y in walk(e_):
+                if y.get('k') == 'Ref' and y.get('dk') == 'local' and y['d'] not in seen_ and _sd10(ne, y['d']) is not None:
+                    seen_.add(y['d'])
+                    expr.append(_sd10(ne, y['d']))
+                if y.get('k') == 'Bin' and y.get('op') in ('/', '*'):
+                    other = None
+        rep.check(other is not None and bool(other) and any(y.get('k') == 'Call' and (y.get('fn') or y.get('callee') or '').split('::')[-1] in ('fabs', 'abs') for y in walk(other[0])), 'C10.U3', 'areNearlyEqual|absolute', ne.where(b),
+                  'the value compared with the machine epsilon is `%s`: the difference is scaled, so the shortcut is no longer an absolute one' % render(b)[:70], 'absolute difference compared with epsilon')
+
+
